@@ -263,7 +263,7 @@ func TestVerifC28Child(t *testing.T) {
 				panic(err)
 			}
 			defer casesF.Close()
-			cases := bufio.NewWriterSize(casesF, 9*4096)
+			cases := bufio.NewWriterSize(casesF, 9*256)
 			defer cases.Flush()
 			local := map[string]int64{}
 			count := func(k string, d int64) { local[k] += d }
